@@ -33,6 +33,11 @@ struct MState {
     no_receivers: bool,
     slots: [Option<(Kind, u8)>; NSLOTS],
     next_val: u32,
+    /// futures tasks the model knows to be parked (NotReady was returned)
+    stream_wait: [bool; NSLOTS],
+    sink_wait: [bool; NSLOTS],
+    /// task ids that the last operation must have notified
+    expect_notify: Vec<usize>,
 }
 
 const SENDER_SLOTS: [u8; 3] = [0, 2, 3];
@@ -116,6 +121,9 @@ impl MState {
             no_receivers: false,
             slots,
             next_val: 1,
+            stream_wait: [false; NSLOTS],
+            sink_wait: [false; NSLOTS],
+            expect_notify: Vec::new(),
         }
     }
 
@@ -173,7 +181,51 @@ impl MState {
     }
 
     /// Model prediction(s) for one op (composite ops give several results).
+    /// Model prediction(s) for one op, plus the bookkeeping of parked tasks.
     fn step(&mut self, o: &Op, fl: Flavour) -> Vec<Res> {
+        self.expect_notify.clear();
+        let res = self.step_inner(o, fl);
+        match (o.k, res.last()) {
+            (PollS, Some(Res::NotReady)) => self.stream_wait[o.h as usize] = true,
+            (PollS, _) => self.stream_wait[o.h as usize] = false,
+            (StartSend, Some(Res::NotReadyMsg(_))) => self.sink_wait[o.h as usize] = true,
+            (StartSend, _) => self.sink_wait[o.h as usize] = false,
+            (DropH, _) | (Unsub, _) | (IntoSingle, _) | (IntoMulti, _) | (Transform, _) => {
+                self.stream_wait[o.h as usize] = false;
+                self.sink_wait[o.h as usize] = false;
+            }
+            _ => {}
+        }
+        // whoever can make progress now must have been told by this operation
+        for slot in 0..NSLOTS {
+            if self.stream_wait[slot] {
+                match self.slots[slot] {
+                    Some((k, sid)) if k != Kind::S => {
+                        let st = &self.streams[&sid];
+                        if st.cursor < self.log.len() || self.senders == 0 {
+                            self.stream_wait[slot] = false;
+                            self.expect_notify.push(100 + slot);
+                        }
+                    }
+                    _ => self.stream_wait[slot] = false,
+                }
+            }
+            if self.sink_wait[slot] {
+                match self.slots[slot] {
+                    Some((Kind::S, _)) => {
+                        if self.no_receivers || self.log.len() - self.min_cursor() < self.n {
+                            self.sink_wait[slot] = false;
+                            self.expect_notify.push(200 + slot);
+                        }
+                    }
+                    _ => self.sink_wait[slot] = false,
+                }
+            }
+        }
+        res
+    }
+
+    fn step_inner(&mut self, o: &Op, fl: Flavour) -> Vec<Res> {
         let (kind, sid) = self.slots[o.h as usize].expect("model: op on dead slot");
         match o.k {
             TrySend | StartSend => {
@@ -442,6 +494,13 @@ fn res_class(r: &Res) -> String {
 }
 
 pub struct HistOut {
+    /// the operations actually executed: the explicit ones plus the re-polls
+    /// of parked tasks that were notified (what an executor would do)
+    pub exec_ops: Vec<Op>,
+    /// index into exec_ops of the last explicit operation
+    pub last_explicit: usize,
+    /// task notifications raised during each executed op (sequential task ids)
+    pub notifies: Vec<Vec<usize>>,
     pub evs: Vec<Ev>,
     pub kinds: Vec<&'static str>,
     pub completed: bool,
@@ -469,46 +528,100 @@ fn run_history(
     ctx.hist.lk().clear();
     let mut kinds = Vec::new();
     let mut completed = true;
-    for o in ops {
-        kinds.push(ctx.slot_kind(o.h).unwrap_or("?"));
-        let before = ctx.hist.lk().len();
-        // val==1 on Unsub only tells the model about the handle family
-        let real = if o.k == Unsub { op(Unsub, o.h) } else { *o };
-        let r = rt::seq_call(|| ctx.exec(MAIN, &real));
-        st.calls += 1;
-        match r {
-            Ok(true) => {}
-            Ok(false) => {
-                completed = false;
-                break;
+    let mut notifies: Vec<Vec<usize>> = Vec::new();
+    let mut exec_ops: Vec<Op> = Vec::new();
+    let mut last_explicit = 0usize;
+    // parked tasks: task id -> the call to repeat when the task is notified
+    let mut waiting: Vec<(usize, Op)> = Vec::new();
+    let _ = rt::take_seq_notifies();
+    'outer: for o in ops {
+        let mut queue: std::collections::VecDeque<Op> = std::collections::VecDeque::new();
+        queue.push_back(*o);
+        let mut first = true;
+        let mut implicit = 0;
+        while let Some(x) = queue.pop_front() {
+            if first {
+                last_explicit = exec_ops.len();
+                first = false;
             }
-            Err(None) => {
-                // the call would never return on one thread
-                let (end, stt) = rt::op_end();
-                ctx.hist.lk().push(Ev {
-                    th: MAIN,
-                    h: o.h,
-                    stream: 0,
-                    k: match o.k {
-                        TryIter | TryIterWith => IterNext,
-                        k => k,
-                    },
-                    val: o.val,
-                    start: end,
-                    end,
-                    res: Res::Blocked,
-                    st: stt,
-                });
-                completed = false;
-                break;
+            if ctx.slot_kind(x.h).is_none() {
+                continue; // the parked handle is gone
             }
-            Err(Some(m)) => {
-                st.errs.push(format!("harness panic in history {}: {}", hist_s, m));
-                completed = false;
-                break;
+            kinds.push(ctx.slot_kind(x.h).unwrap_or("?"));
+            // val==1 on Unsub only tells the model about the handle family
+            let real = if x.k == Unsub { op(Unsub, x.h) } else { x };
+            let r = rt::seq_call(|| ctx.exec(MAIN, &real));
+            let notes = rt::take_seq_notifies();
+            exec_ops.push(x);
+            st.calls += 1;
+            match r {
+                Ok(true) => {}
+                Ok(false) => {
+                    notifies.push(notes);
+                    completed = false;
+                    break 'outer;
+                }
+                Err(None) => {
+                    // the call would never return on one thread
+                    let (end, stt) = rt::op_end();
+                    ctx.hist.lk().push(Ev {
+                        th: MAIN,
+                        h: x.h,
+                        stream: 0,
+                        k: match x.k {
+                            TryIter | TryIterWith => IterNext,
+                            k => k,
+                        },
+                        val: x.val,
+                        start: end,
+                        end,
+                        res: Res::Blocked,
+                        st: stt,
+                    });
+                    notifies.push(notes);
+                    completed = false;
+                    break 'outer;
+                }
+                Err(Some(m)) => {
+                    st.errs.push(format!("harness panic in history {}: {}", hist_s, m));
+                    notifies.push(notes);
+                    completed = false;
+                    break 'outer;
+                }
             }
+            // bookkeeping of parked tasks from the real result
+            let res = ctx.hist.lk().last().map(|e| e.res.clone());
+            let (sid, kid) = (100 + x.h as usize, 200 + x.h as usize);
+            match x.k {
+                PollS => {
+                    waiting.retain(|(i, _)| *i != sid);
+                    if res == Some(Res::NotReady) {
+                        waiting.push((sid, x));
+                    }
+                }
+                StartSend => {
+                    waiting.retain(|(i, _)| *i != kid);
+                    if let Some(Res::NotReadyMsg(_)) = res {
+                        waiting.push((kid, x));
+                    }
+                }
+                DropH | Unsub | IntoSingle | IntoMulti | Transform => {
+                    waiting.retain(|(i, _)| *i != sid && *i != kid);
+                }
+                _ => {}
+            }
+            // a notified parked task polls again, like under an executor
+            for id in &notes {
+                if let Some(pos) = waiting.iter().position(|(i, _)| i == id) {
+                    let (_, w) = waiting.remove(pos);
+                    if implicit < 12 {
+                        implicit += 1;
+                        queue.push_back(w);
+                    }
+                }
+            }
+            notifies.push(notes);
         }
-        let _ = before;
     }
     let evs: Vec<Ev> = ctx.hist.lk().clone();
     // ------------------------------------------------------------ teardown
@@ -607,6 +720,9 @@ fn run_history(
         }
     }
     HistOut {
+        exec_ops,
+        last_explicit,
+        notifies,
         evs,
         kinds,
         completed: completed && td_ok,
@@ -625,7 +741,7 @@ struct Dfs<'a> {
 
 impl<'a> Dfs<'a> {
     /// Judge the node `ops` (its last op against the model), then extend.
-    fn node(&mut self, ops: &mut Vec<Op>, ms: &MState, preds: &mut Vec<Res>) {
+    fn node(&mut self, ops: &mut Vec<Op>) {
         let depth = ops.len();
         if depth == self.frontier_depth {
             let mine = self.frontier_idx % self.shard.1 == self.shard.0;
@@ -636,6 +752,7 @@ impl<'a> Dfs<'a> {
         }
         let accounted = depth >= self.frontier_depth || self.shard.0 == 0;
         let mut go_on = true;
+        let mut ms = MState::new(self.c.qc.n() as usize);
         if depth > 0 {
             let hs = ops_to_string(ops);
             for order in 0..self.c.orders {
@@ -651,9 +768,21 @@ impl<'a> Dfs<'a> {
                     self.st.errs.extend(tmp.errs);
                 }
                 if order == 0 {
-                    go_on = self.compare(ops, &out, preds, &hs, accounted);
+                    // the model follows the executed sequence (explicit operations
+                    // and the re-polls of notified tasks)
+                    let mut preds: Vec<Res> = Vec::new();
+                    let mut expect: Vec<Vec<usize>> = Vec::new();
+                    for x in &out.exec_ops {
+                        if ms.slots[x.h as usize].is_none() {
+                            break;
+                        }
+                        preds.extend(ms.step(x, self.c.qc.fl));
+                        expect.push(ms.expect_notify.clone());
+                    }
+                    go_on = self.compare(ops, &out, &preds, &hs, accounted, &expect);
                 }
             }
+            ms.next_val = 1 + ops.iter().filter(|o| matches!(o.k, TrySend | StartSend)).count() as u32;
             if accounted {
                 self.st.states.insert(ms.key());
                 self.st.depth = self.st.depth.max(depth);
@@ -666,24 +795,24 @@ impl<'a> Dfs<'a> {
             self.st.capped = true;
             return;
         }
-        for a in enabled(ms, &self.c) {
-            let mut ms2 = ms.clone();
-            let r = ms2.step(&a, self.c.qc.fl);
-            if matches!(a.k, TrySend | StartSend) {
-                ms2.next_val += 1;
-            }
-            let n0 = preds.len();
-            preds.extend(r);
+        for a in enabled(&ms, &self.c) {
             ops.push(a);
-            self.node(ops, &ms2, preds);
+            self.node(ops);
             ops.pop();
-            preds.truncate(n0);
         }
     }
 
     /// Compare the real events with the model's predictions. Only the events
     /// of the last op can be new. Returns false when the subtree must be cut.
-    fn compare(&mut self, ops: &[Op], out: &HistOut, preds: &[Res], hs: &str, accounted: bool) -> bool {
+    fn compare(
+        &mut self,
+        ops: &[Op],
+        out: &HistOut,
+        preds: &[Res],
+        hs: &str,
+        accounted: bool,
+        expect_notify: &[Vec<usize>],
+    ) -> bool {
         let real: Vec<&Ev> = out
             .evs
             .iter()
@@ -765,6 +894,41 @@ impl<'a> Dfs<'a> {
             }
             break;
         }
+        // parked tasks that can make progress after an op must have been notified by it
+        if accounted && ok && out.completed {
+            for i in out.last_explicit..out.exec_ops.len() {
+                let (Some(got), Some(want)) = (out.notifies.get(i), expect_notify.get(i)) else {
+                    continue;
+                };
+                let by = out.exec_ops[i];
+                for w in want {
+                    if !got.contains(w) {
+                        let who = if *w >= 200 { "sink-task" } else { "stream-task" };
+                        self.st.find(
+                            "C14",
+                            format!(
+                                "C14|parked-{}-not-notified|by={:?}|on={}|{}",
+                                who,
+                                by.k,
+                                out.kinds.get(i).copied().unwrap_or("?"),
+                                fl
+                            ),
+                            hs,
+                            format!(
+                                "history [{}] (executed with re-polls: {}): after {:?} on slot {} the parked {} (task id {}) can make progress, but that operation notified only {:?}",
+                                hs,
+                                ops_to_string(&out.exec_ops),
+                                by.k,
+                                by.h,
+                                who,
+                                w,
+                                got
+                            ),
+                        );
+                    }
+                }
+            }
+        }
         // contract checks on the last op's events (C15)
         if accounted {
             for e in real.iter().rev().take(1) {
@@ -814,7 +978,7 @@ fn configs(prop: &str, tier: Tier) -> Vec<SeqCfg> {
     let mut v = Vec::new();
     let caps: &[u64] = if thorough { &[0, 1, 2, 3, 4] } else { &[1, 2] };
     let fams: Vec<(Flavour, bool)> = match prop {
-        "C15" => vec![(Flavour::B, true), (Flavour::M, true)],
+        "C15" | "C14" => vec![(Flavour::B, true), (Flavour::M, true)],
         _ => vec![
             (Flavour::B, false),
             (Flavour::M, false),
@@ -1138,7 +1302,7 @@ pub fn main(prop: &str, tier: Tier, si: usize, sk: usize) {
     let mut st = SeqStats::default();
     let thorough = tier == Tier::Thorough;
     let deadline = Instant::now() + Duration::from_secs(if thorough { 1800 } else { 40 });
-    if matches!(prop, "C05" | "C09" | "C13" | "C15" | "C17") {
+    if matches!(prop, "C05" | "C09" | "C13" | "C14" | "C15" | "C17") {
         for c in configs(prop, tier) {
             st.configs.push(format!("{}:depth{}", c.qc.label(), c.depth));
             let fl = format!(
@@ -1156,8 +1320,7 @@ pub fn main(prop: &str, tier: Tier, si: usize, sk: usize) {
                 frontier_idx: 0,
                 fl,
             };
-            let ms = MState::new(c.qc.n() as usize);
-            d.node(&mut Vec::new(), &ms, &mut Vec::new());
+            d.node(&mut Vec::new());
         }
     }
     if matches!(prop, "C03" | "C09") {
@@ -1290,12 +1453,17 @@ pub fn replay(path: &str) {
                 }
                 for order in 0..4 {
                     let mut st = SeqStats::default();
+                    let out = run_history(&c, &ops, order, &mut st, &hist, true);
                     let mut ms = MState::new(qc.n() as usize);
                     let mut preds = Vec::new();
-                    for o in &ops {
+                    let mut expect: Vec<Vec<usize>> = Vec::new();
+                    for o in &out.exec_ops {
+                        if ms.slots[o.h as usize].is_none() {
+                            break;
+                        }
                         preds.extend(ms.step(o, fl));
+                        expect.push(ms.expect_notify.clone());
                     }
-                    let out = run_history(&c, &ops, order, &mut st, &hist, true);
                     let mut d = Dfs {
                         c,
                         st: &mut st,
@@ -1305,13 +1473,14 @@ pub fn replay(path: &str) {
                         frontier_idx: 0,
                         fl: format!("{}{}", lbl, c.suffix),
                     };
-                    d.compare(&ops, &out, &preds, &hist, true);
+                    d.compare(&ops, &out, &preds, &hist, true, &expect);
                     if st.findings.keys().any(|k| *k == sig) {
                         println!("--- reproduced on {} cap {} teardown order {}", lbl, cap, order);
                         for e in &out.evs {
                             println!("  {:?} h{} v{} -> {:?}", e.k, e.h, e.val, e.res);
                         }
                         println!("  model predicted: {:?}", preds);
+                        println!("  notifications per op: {:?}", out.notifies);
                         for (k, v) in &st.findings {
                             println!("  FINDING {} :: {}", k, v.3);
                         }
